@@ -247,7 +247,7 @@ def corruptions(kind, fields, rng):
             for t in toks:
                 out.append(("domain:%s" % name, setv(name, t)))
     other = "200" if kind == "v1" else "100"
-    for t in (other, "1", "1000", "0100" if kind == "v1" else "0200"):
+    for t in (other, "1", "1000", "0", "00", "000", "0100" if kind == "v1" else "0200"):
         if t in ("0100", "0200"):
             continue                      # int("0100") == 100: numerically the right kind, not a corruption
         out.append(("domain:OFXHEADER", setv("OFXHEADER", t)))
@@ -256,7 +256,7 @@ def corruptions(kind, fields, rng):
     for t in ("1000", "1020", "10200", "99999999"):
         out.append(("version:over-long", setv("VERSION", t)))
     if kind == "v2":
-        for t in ("204", "209", "212", "221", "299", "102", "2"):
+        for t in ("204", "209", "212", "221", "299", "102", "2", "0", "00", "000"):
             out.append(("version:unsupported", setv("VERSION", t)))
     long_uid = "".join(rng.choice(UID_ALPHA) for _ in range(rng.choice([37, 38, 64])))
     out.append(("uid:over-long", setv("OLDFILEUID", long_uid)))
@@ -416,6 +416,11 @@ def run(rep, tier, rng):
                 (("ctor2", 204, None, None, None, None), "v2:version-unsupported"), (("ctor2", "102", None, None, None, None), "v2:version-unsupported"),
                 (("ctor2", 200, 100, None, None, None), "v2:ofxheader"), (("ctor2", 200, None, "TYPE2", None, None), "v2:security"),
                 (("ctor2", 200, None, None, "x" * 37, None), "v2:uid-over-long"), (("ctor2", 200, None, None, None, "y" * 40), "v2:uid-over-long")]
+    # zero and its spellings: falsy for Python, still outside every numeric domain (an int 0 for ofxheader means "use the default")
+    for z in ("0", "00", "000", "+0", "-0", " 0 ", "0_0", "٠"):
+        bad_ctor += [(("ctor1", 102, z, None, None, None, None, None, None, None), "v1:ofxheader-zero"), (("ctor2", 200, z, None, None, None), "v2:ofxheader-zero"),
+                     (("ctor2", z, None, None, None, None), "v2:version-zero")]
+    bad_ctor += [(("ctor2", 0, None, None, None, None), "v2:version-zero"), (("ctor2", 0, 200, None, None, None), "v2:version-zero")]
     for case, label in bad_ctor:
         cases.append(case)
         out = run_impl(H, case)
